@@ -203,4 +203,39 @@ def oracle(ctx):
             res.oracle_failures.append(dict(op='fault-run', input=dict(failing_writes=n_write, conversion_errors=n_conv),
                                             impl_output=dict(exit=rc, errors_logged=len(e2e.error_lines(se))),
                                             oracle_expectation=f'{n_write} service files cannot be written (and {n_conv} units fail to convert): the exit status must be non-zero'))
+    # "it still writes the remaining services" — also those that *refer* to the unit whose service could not be written (the failure is
+    # about a file, not about the unit: what the unit publishes in the run stays valid)
+    import e2e as _e2e, shutil as _sh
+    rcases = [(fault, ref) for fault in ('dir', 'devfull', 'dangling') for ref in ('Volume=data.volume:/d', 'Network=data.network', 'Image=data.image', 'Pod=data.pod')]
+
+    def run_ref(c):
+        fault, ref = c
+        ext = ref.split('.')[1].split(':')[0]
+        victim = 'data' + ('' if ext == 'pod' and False else '-' + ext) + '.service'
+        base = _e2e.fresh_dir()
+        files = {'src/data.' + ext: '[' + ext.capitalize() + ']\n' + ('Image=quay.io/x/y\n' if ext == 'image' else ''),
+                 'src/app.container': '[Container]\n' + ('Image=localhost/i\n' if not ref.startswith('Image=') else '') + ref + '\n[Install]\nWantedBy=default.target\n'}
+        _e2e.write_tree(base, files)
+        out = os.path.join(base, 'out')
+        os.makedirs(out)
+        if fault == 'dir':
+            os.makedirs(os.path.join(out, victim))
+        else:
+            os.symlink('/dev/full' if fault == 'devfull' else os.path.join(base, 'nowhere', 'x'), os.path.join(out, victim))
+        rc, so, se = _e2e.run_binary(['--no-kmsg-log', out], os.path.join(base, 'src'))
+        snap = _e2e.snapshot(out)
+        _sh.rmtree(base, ignore_errors=True)
+        return victim, rc, se, snap
+    for (fault, ref), (victim, rc, se, snap) in zip(rcases, _e2e.pmap(run_ref, rcases)):
+        res.oracle_evals += 1
+        fails = []
+        if ref.startswith('Pod='):
+            # (a pod is written after its members: the member is the one written before the failure — it must be there all the same)
+            pass
+        if rc != 1 or not any('ERROR' in l and '/' + victim in l for l in se.split('\n')):
+            fails.append(f'the failed write of {victim} must give exit status 1 and an error naming it: exit {rc}, {_e2e.error_lines(se)[:3]}')
+        if snap.get('app.service', ('?',))[0] != 'f' or 'default.target.wants/app.service' not in snap:
+            fails.append(f'app.container refers to the unit whose service file could not be written ({ref}); its own service must still be written and enabled: {sorted(snap)}; {_e2e.error_lines(se)[:3]}')
+        for f in fails:
+            res.oracle_failures.append(dict(op='fault-run', input=dict(fault=fault, victim=victim, referrer=ref), impl_output=dict(exit=rc, out=sorted(snap)), oracle_expectation=f))
     ctx.log(f'oracle: {res.oracle_evals} fault-injection runs, {len(res.oracle_failures)} failures')
